@@ -684,6 +684,53 @@ async def run_failures(corr: Corr):
     return ops, recs
 
 
+async def run_backlog(corr: Corr, n: int = 1500) -> None:
+    """A reader that is behind: `n` messages arrive before the first read.  Every one of them must be delivered, in
+    order, and a message arriving afterwards too (no bound on the backlog may end reception silently)."""
+    for kind in ("client", "mem"):
+        rec = {"kind": "backlog", "transport": kind, "arrivals": n}
+        if kind == "client":
+            tr, fake = make_client("gw-out", "gw-in", {})
+            r = await guarded(tr.connect())
+            if r[0] != "ok":
+                corr.violate("connect failed in the backlog scenario", {**rec, "got": repr(r)})
+                continue
+            for i in range(n):
+                fake.feed(f"gw-out/1/0/1/0/2", str(i).encode())
+            await settle(16)
+        else:
+            tr = MemTransport("gw-out", "gw-in")
+            await tr.connect()
+            for i in range(n):
+                try:
+                    tr._receive("gw-out/1/0/1/0/2", str(i))
+                except BaseException as e:  # noqa: BLE001
+                    corr.violate(f"receiving message {i} of a backlog raised {type(e).__name__}", rec)
+                    break
+        got = []
+        for i in range(n):
+            r = await guarded(tr.read(), 0.5)
+            if r[0] != "ok":
+                break
+            got.append(r[1] if len(r) > 1 else None)
+        if kind == "client":
+            fake.feed("gw-out/1/0/1/0/2", b"late")
+        else:
+            try:
+                tr._receive("gw-out/1/0/1/0/2", "late")
+            except BaseException:  # noqa: BLE001
+                pass
+        late = await guarded(tr.read(), 0.5)
+        if len(got) != n or late[0] != "ok":
+            corr.violate("messages of a backlog, or a message arriving after it, were never delivered (reception ended silently)",
+                         {**rec, "delivered": len(got), "late": repr(late)[:100]})
+        d = await guarded(tr.disconnect())
+        if d[0] != "ok":
+            corr.violate("disconnect raised after a backlog", {**rec, "got": repr(d)[:100]})
+        corr.case(("backlog", kind, n), True, rec)
+        corr.count("backlog-scenarios")
+
+
 def utf8_cases(ctx, rng):
     cases = [b"", b"A", b"\x7f", b"\x80", b"\xbf", b"\xc0\x80", b"\xc1\xbf", b"\xc2\x80", b"\xdf\xbf", b"\xc2", b"\xc2A",
              b"\xe0\x80\x80", b"\xe0\x9f\xbf", b"\xe0\xa0\x80", b"\xed\x9f\xbf", b"\xed\xa0\x80", b"\xed\xbf\xbf",
@@ -757,6 +804,7 @@ def run_c18(ctx) -> Corr:
             corr.count("session-reads", shape.count("R"))
         results["sess"] = sess_obs
         results["fail"] = await run_failures(corr)
+        await run_backlog(corr, 1500 if ctx.tier == "quick" else 20000)
 
     try:
         asyncio.run(main())
